@@ -41,6 +41,19 @@ LEVEL_NOTE = ('Trusted: Lean kernel + axioms propext/Classical.choice/Quot.sound
               'statement of the theorems; the correspondence harness (simulated k8s/AWS, canonicalisation, generator reach); '
               'the go/ast extractor. Modelled, not verified: informers, leader election, metrics, logging, AWS session/SDK shapes.')
 
+def c12_twin_monitor(case_line, result):
+    """C12 metamorphic monitor (implementation only): the harness ran the same scan on a twin controller whose world
+    differs only inside one group t; the calls made for, and the state kept about, every other group must be identical."""
+    if '"twin":' not in case_line:
+        return []
+    c = json.loads(case_line)
+    tw = c.get('twin')
+    if not tw:
+        return []
+    return ['C12:twin:group %s acted differently (%s) when only group %s was changed (%s)' % (d['group'], d['what'], tw['t'], tw['mode'])
+            for d in tw['diffs']][:3]
+
+
 def c16_safe_monitor(case_line, result):
     """C16 monitor, independent of the Lean build: a configuration the real validator accepted must be safe."""
     if '"op":"validate"' not in case_line:
@@ -216,9 +229,9 @@ PROPS = {
                            'Tie: awsops (provider level) and hist (controller level) + monitors.',
                 level_note=LEVEL_NOTE),
     'C12': dict(level='proof', module='EscProofs.P.C12', streams=hist('C12', focus='multi'),
-                aspects=['hist:journal', 'hist:reccount', 'hist:outcome'], monitors=['C12'],
+                aspects=['hist:journal', 'hist:reccount', 'hist:outcome'], monitors=['C12'], py_monitor=c12_twin_monitor,
                 theorems=['Esc.P.C12_targets', 'Esc.P.C12_frame', 'Esc.P.C12_containment', 'Esc.P.C12_fatal_kinds', 'Esc.P.scanGroup_gid'],
-                technique='Lean 4 theorem (targets from the journal anatomy; frame lemma for the per-group loop by induction over the configured groups; containment by case analysis of the loop) + differential correspondence on per-group journals with 2-3 groups + monitor',
+                technique='Lean 4 theorem (targets from the journal anatomy; frame lemma for the per-group loop by induction over the configured groups; containment by case analysis of the loop) + differential correspondence on per-group journals with 2-3 groups + monitor + metamorphic twin run of the implementation (same scan on a second controller whose world differs only inside one group; the other groups\' calls and state must be identical)',
                 level_text='C12_targets: every call of a group scan targets a node listed for that group, an instance of its cached cloud group, or that cloud group; C12_frame: a group\'s record is the scan of its own configuration, state, cloud group and view '
                            'as they stood before the loop, whatever the other groups (other names, other cloud groups) contain or do and wherever it stands in the order — other groups enter only through the index at which the environment is consulted; '
                            'C12_containment / C12_fatal_kinds: a run that is not fatal processed every group, and the loop is fatal only for not-in-group, fleet-strikes or a missing cloud group. '
